@@ -193,7 +193,7 @@ func fieldName(t types.Type, i int) string {
 		t = p.Elem()
 	}
 	if s, ok := t.Underlying().(*types.Struct); ok && i < s.NumFields() {
-		return s.Field(i).Name()
+		return canonFieldName(t, i, s.Field(i).Name())
 	}
 	return fmt.Sprint(i)
 }
@@ -664,7 +664,7 @@ func (a *Arith) axioms(form Lin, seen map[string]bool) []Ineq {
 				}
 			}
 			if sc := x.Call.StaticCallee(); sc != nil && sc.Pkg != nil {
-				full := sc.Pkg.Pkg.Path() + "." + sc.Name()
+				full := sc.Pkg.Pkg.Path() + "." + canonFnName(sc)
 				switch full {
 				case "unicode/utf8.RuneCountInString", "unicode/utf8.RuneCount":
 					out = append(out, Ineq{linAtom(k).scale(-1), 0})
